@@ -453,7 +453,19 @@ def estimator_history(ctx, simpy, uros, msgs, AttitudeEstimator, eqs, rng, k):
                 pub_mag.publish(mm)
             yield simpy.Timeout(core, float(rng.choice([0, 0.001, 0.004])))
 
+    def reconfigure():
+        # parameters are broadcast during the run as well (an unrelated parameter, or the same limits again): the minimum
+        # intervals keep counting from the last correction
+        while True:
+            yield simpy.Timeout(core, float(rng.uniform(0.05, 0.4)))
+            if rng.random() < 0.5:
+                core.set_param("logger/dt", float(rng.choice([0.005, 0.01, 0.02])))
+            else:
+                core.set_param("mrp/dt_min_accel", dmin_a)
+            ctx.count("parameter_broadcasts_during_estimator_run")
+
     simpy.Process(core, hostile())
+    simpy.Process(core, reconfigure())
     exc = None
     try:
         with quiet():
